@@ -14,6 +14,12 @@ let int_arg args i = match List.nth_opt args i with Some s -> (try int_of_string
 let str_arg args i = match List.nth_opt args i with Some s -> s | None -> ""
 let of_values o = ints_of (String.sub o 1 (String.length o - 1))
 
+let a_big = max_int
+let sign_big s = (* "is |n| beyond any ring" for numbers that do not fit an OCaml int *)
+  if s = "" then 0 (* a missing argument reads as 0, as in the harness *) else
+  match int_of_string_opt s with Some n -> n | None -> if s.[0] = '-' then - a_big else a_big
+
+
 (* ------------------------------------------------------------------ the extracted model *)
 
 type msess = { mutable heap : int M.heap; mutable names : int list (* addresses, newest first *); tbl : (int, int) Hashtbl.t (* address -> name *); mutable count : int; mutable addr_of : int array }
@@ -77,8 +83,9 @@ let rec m_op s o =
   let args = op_args o in
   match o.[0] with
   | 'N' ->
-    let n = int_arg args 0 in
-    (match m_step s (M.ONew (z_of_int n)) with
+    let n = sign_big (str_arg args 0) in      (* the count as an OCaml int (only used to name the elements) *)
+    if n > 100000 then "too-large" else       (* not an input of the generator; the harness answers the same *)
+    (match m_step s (M.ONew (z_of_string (str_arg args 0))) with
      | M.RPtr r -> m_register s r n; m_name s r
      | x -> m_show s x)
   | 'O' ->
@@ -143,11 +150,6 @@ let cycle_from a x =
         | None -> go (c :: acc) rest) in
   go [] a.cycles
 
-let a_big = max_int
-let sign_big s = (* "is |n| beyond any ring" for numbers that do not fit an OCaml int *)
-  if s = "" then 0 (* a missing argument reads as 0, as in the harness *) else
-  match int_of_string_opt s with Some n -> n | None -> if s.[0] = '-' then - a_big else a_big
-
 let a_at a r n =
   if r = 0 then 0 else
   let (c, _) = cycle_from a r in
@@ -188,7 +190,7 @@ let a_op a o =
   if o = "" then "?" else
   let args = op_args o in
   match o.[0] with
-  | 'N' -> let n = int_arg args 0 in a_make a (List.init (max n 0) (fun _ -> 0))
+  | 'N' -> let n = sign_big (str_arg args 0) in a_make a (List.init (max n 0) (fun _ -> 0))
   | 'O' -> a_make a (of_values o)
   | 'S' ->
     let c = a.n in
@@ -255,6 +257,7 @@ let a_partition_ok a =
 (* values of Of must be OCaml ints; anything else is not an input the generator produces (it can
    only come from shrinking) and is not judged *)
 let well_formed ops =
+  List.for_all (fun o -> o = "" || o.[0] <> 'N' || sign_big (String.sub o 1 (String.length o - 1)) <= 100000) ops &&
   List.for_all (fun o -> o = "" || o.[0] <> 'O' ||
     List.for_all (fun v -> v = "" || v = "." || int_of_string_opt v <> None) (String.split_on_char ',' (String.sub o 1 (String.length o - 1)))) ops
 
